@@ -585,6 +585,14 @@ func VerifyNODATAForZoneWithWork(
 		if q.Qtype == dns.TypeDS && typesSet(types, dns.TypeSOA) {
 			return false, ErrNSECBadDelegation
 		}
+		// The converse (RFC 6840 §4.1): the parent-side NSEC3 of a
+		// delegation point (NS without SOA) is authoritative for DS
+		// only; every other type at that name belongs to the child
+		// zone, so its absence from this bitmap proves nothing.
+		if q.Qtype != dns.TypeDS && typesSet(types, dns.TypeNS) &&
+			!typesSet(types, dns.TypeSOA) {
+			return false, ErrNSECBadDelegation
+		}
 		return true, nil
 	} else if err != ErrNSECMissingCoverage {
 		return false, err
